@@ -21,7 +21,8 @@
 EXTENDS Naturals, Sequences, FiniteSets, TLC, Json
 
 CONSTANTS Depth,        \* 1: one former over leaves; 2: a spine of two formers; 3: a spine of three
-          Mode          \* "emit" prints one REPLAY record per tree; "check" only evaluates invariants
+          Mode,         \* "emit" prints one REPLAY record per tree; "check" only evaluates invariants
+          RootPats      \* "all": the root's binder position ranges over every pattern spelling; "var": `x` only
 
 (* ------------------------------------------------------------------------------------------------ *)
 (* part 1: classes and requirements                                                                   *)
@@ -36,6 +37,7 @@ Annotated == 7
 
 tk(s, k) == [t |-> "tok", s |-> s, k |-> k]
 sl(r) == [t |-> "slot", r |-> r]
+pt == [t |-> "pat"]          \* the binder position of a former: filled by the pattern spelling of the node
 
 (* token kinds: ent   first token of a term / pattern / copattern / definition entity                *)
 (*              sep   separator or infix keyword; arm: the `|` marker of an arm                       *)
@@ -48,7 +50,7 @@ Formers == [
   force  |-> [c |-> Atom, tpl |-> <<tk("!", "ent"), sl(Atom)>>],
   ret    |-> [c |-> Atom, tpl |-> <<tk("ret", "ent"), sl(Atom)>>],
   block  |-> [c |-> Atom, tpl |-> <<tk("begin", "ent"), sl(Annotated), tk("end", "close")>>],
-  cabs   |-> [c |-> Atom, tpl |-> <<tk("comatch", "ent"), tk("x", "ent"), tk("=>", "sep"), sl(AnyT), tk("end", "close")>>],
+  cabs   |-> [c |-> Atom, tpl |-> <<tk("comatch", "ent"), pt, tk("=>", "sep"), sl(AnyT), tk("end", "close")>>],
   ctor   |-> [c |-> Atom, tpl |-> <<tk("+C", "ent"), tk("(", "ent"), sl(Annotated), tk(")", "close")>>],
   ctorb  |-> [c |-> Atom, tpl |-> <<tk("+C", "ent"), sl(Atom)>>],
   match  |-> [c |-> Atom, tpl |-> <<tk("match", "ent"), sl(AnyT), tk("|", "arm"), tk("+K", "ent"), tk("(", "ent"), tk("y", "ent"), tk(")", "close"), tk("=>", "sep"), sl(AnyT), tk("end", "close")>>],
@@ -61,17 +63,20 @@ Formers == [
   dtor   |-> [c |-> Application, tpl |-> <<sl(Application), tk(".d", "post")>>],
   prod   |-> [c |-> Product, tpl |-> <<sl(Application), tk("*", "sep"), sl(Product)>>],
   arrow  |-> [c |-> Arrow, tpl |-> <<sl(Product), tk("->", "sep"), sl(Arrow)>>],
-  pi     |-> [c |-> Quantifier, tpl |-> <<tk("pi", "ent"), tk("x", "ent"), tk(".", "sep"), sl(Quantifier)>>],
-  forall |-> [c |-> Quantifier, tpl |-> <<tk("forall", "ent"), tk("x", "ent"), tk(".", "sep"), sl(Quantifier)>>],
-  sigma  |-> [c |-> Quantifier, tpl |-> <<tk("sigma", "ent"), tk("x", "ent"), tk(".", "sep"), sl(Quantifier)>>],
+  pi     |-> [c |-> Quantifier, tpl |-> <<tk("pi", "ent"), pt, tk(".", "sep"), sl(Quantifier)>>],
+  forall |-> [c |-> Quantifier, tpl |-> <<tk("forall", "ent"), pt, tk(".", "sep"), sl(Quantifier)>>],
+  sigma  |-> [c |-> Quantifier, tpl |-> <<tk("sigma", "ent"), pt, tk(".", "sep"), sl(Quantifier)>>],
   exists |-> [c |-> Quantifier, tpl |-> <<tk("exists", "ent"), tk("(", "word"), tk("x", "ent"), tk(")", "close"), tk(".", "sep"), sl(AnyT)>>],
-  fn     |-> [c |-> Binder, tpl |-> <<tk("fn", "ent"), tk("x", "ent"), tk("=>", "sep"), sl(Binder)>>],
-  fix    |-> [c |-> Binder, tpl |-> <<tk("fix", "ent"), tk("x", "ent"), tk("=>", "sep"), sl(Binder)>>],
-  do     |-> [c |-> Binder, tpl |-> <<tk("do", "ent"), tk("x", "ent"), tk("<-", "sep"), sl(Binder), tk(";", "sep"), sl(Binder)>>],
-  param  |-> [c |-> Binder, tpl |-> <<tk("param", "ent"), tk("x", "ent"), tk("in", "sep"), sl(Binder)>>],
-  let    |-> [c |-> Binder, tpl |-> <<tk("let", "ent"), tk("x", "ent"), tk("=", "sep"), sl(AnyT), tk("in", "sep"), sl(Binder)>>],
-  lett   |-> [c |-> Binder, tpl |-> <<tk("let", "ent"), tk("x", "ent"), tk(":", "sep"), sl(AnyT), tk("=", "sep"), sl(AnyT), tk("in", "sep"), sl(Binder)>>],
-  define |-> [c |-> Binder, tpl |-> <<tk("define", "ent"), tk("x", "ent"), tk("=", "sep"), sl(AnyT), tk("in", "sep"), sl(Binder)>>],
+  fn     |-> [c |-> Binder, tpl |-> <<tk("fn", "ent"), pt, tk("=>", "sep"), sl(Binder)>>],
+  fix    |-> [c |-> Binder, tpl |-> <<tk("fix", "ent"), pt, tk("=>", "sep"), sl(Binder)>>],
+  do     |-> [c |-> Binder, tpl |-> <<tk("do", "ent"), pt, tk("<-", "sep"), sl(Binder), tk(";", "sep"), sl(Binder)>>],
+  param  |-> [c |-> Binder, tpl |-> <<tk("param", "ent"), pt, tk("in", "sep"), sl(Binder)>>],
+  let    |-> [c |-> Binder, tpl |-> <<tk("let", "ent"), pt, tk("=", "sep"), sl(AnyT), tk("in", "sep"), sl(Binder)>>],
+  lett   |-> [c |-> Binder, tpl |-> <<tk("let", "ent"), pt, tk(":", "sep"), sl(AnyT), tk("=", "sep"), sl(AnyT), tk("in", "sep"), sl(Binder)>>],
+  define |-> [c |-> Binder, tpl |-> <<tk("define", "ent"), pt, tk("=", "sep"), sl(AnyT), tk("in", "sep"), sl(Binder)>>],
+  letfn  |-> [c |-> Binder, tpl |-> <<tk("let", "ent"), tk("f", "ent"), pt, tk(":", "sep"), sl(AnyT), tk("=", "sep"), sl(AnyT), tk("in", "sep"), sl(Binder)>>],
+  letbang |-> [c |-> Binder, tpl |-> <<tk("let", "ent"), tk("!", "word"), tk("f", "ent"), pt, tk("=", "sep"), sl(AnyT), tk("in", "sep"), sl(Binder)>>],
+  letfix |-> [c |-> Binder, tpl |-> <<tk("let", "ent"), tk("fix", "word"), tk("f", "ent"), pt, tk(":", "sep"), sl(AnyT), tk("=", "sep"), sl(AnyT), tk("in", "sep"), sl(Binder)>>],
   meta   |-> [c |-> Binder, tpl |-> <<tk("@[inline]", "ent"), sl(Binder)>>],
   ann    |-> [c |-> AnnOnly, tpl |-> <<sl(AnyT), tk(":", "sep"), sl(AnyT)>>],
   named  |-> [c |-> AnnOnly, tpl |-> <<tk("f", "ent"), tk("=", "sep"), sl(Annotated)>>],
@@ -82,6 +87,26 @@ FN == DOMAIN Formers
 (* spellings the printer replaces by a canonical one (`comatch p => t end` by `fn p => t`, `define` by   *)
 (* `def`, a bare constructor argument by a parenthesised one): token-level comparisons skip these trees *)
 Rewritten == {"cabs", "define", "ctorb"}
+
+(* pattern spellings for the binder position (canonical forms; `ppar` is a redundant pair the printer removes) *)
+PatTpl == [
+  pvar      |-> <<tk("x", "ent")>>,
+  phole     |-> <<tk("_", "ent")>>,
+  pctor     |-> <<tk("+K", "ent"), tk("(", "ent"), tk("y", "ent"), tk(")", "close")>>,
+  ptuple    |-> <<tk("(", "ent"), tk("x", "ent"), tk(",", "sep"), tk("y", "ent"), tk(")", "close")>>,
+  pnamed    |-> <<tk("(", "ent"), tk("f", "ent"), tk("=", "sep"), tk("x", "ent"), tk(")", "close")>>,
+  ppun      |-> <<tk("(", "ent"), tk("=", "ent"), tk("g", "ent"), tk(")", "close")>>,
+  pproj     |-> <<tk("(", "ent"), tk("/", "ent"), tk("g", "ent"), tk(")", "close")>>,
+  pprojn    |-> <<tk("(", "ent"), tk("/", "ent"), tk("g", "word"), tk("=", "sep"), tk("x", "ent"), tk(")", "close")>>,
+  palias    |-> <<tk("(", "ent"), tk("x", "ent"), tk(";", "sep"), tk("y", "ent"), tk(")", "close")>>,
+  pann      |-> <<tk("(", "ent"), tk("x", "ent"), tk(":", "sep"), tk("a", "ent"), tk(")", "close")>>,
+  pmanifest |-> <<tk("(", "ent"), tk("x", "ent"), tk("as", "sep"), tk("a", "ent"), tk(")", "close")>>,
+  pannd     |-> <<tk("(", "ent"), tk("x", "ent"), tk(":", "sep"), tk("def", "ent"), tk("y", "ent"), tk("=", "sep"), tk("a", "ent"), tk("in", "sep"), tk("y", "ent"), tk(")", "close")>>,
+  ppar      |-> <<tk("(", "ent"), tk("x", "ent"), tk(")", "close")>>
+]
+PatNames == DOMAIN PatTpl
+SelfParenPats == {"pann", "pannd"}      \* an annotated pattern prints its own pair, like an annotated term
+HasPat(f) == \E i \in DOMAIN Formers[f].tpl : Formers[f].tpl[i].t = "pat"
 
 Slots(f) == {i \in DOMAIN Formers[f].tpl : Formers[f].tpl[i].t = "slot"}
 Leaves == {f \in FN : Slots(f) = {}}
@@ -111,13 +136,13 @@ TableMatchesGrammar == \A r \in Reqs, f \in FN : ImplKeeps(r, f) = Need(r, f)
 \* a tree is a former with one child tree per slot (in template order); leaves have <<>>
 RECURSIVE Trees(_)
 Trees(d) ==
-  IF d = 0 THEN {[f |-> f, kids |-> <<>>] : f \in Leaves}
+  IF d = 0 THEN {[f |-> f, kids |-> <<>>, pat |-> "pvar"] : f \in Leaves}
   ELSE LET sub == Trees(d - 1)
-           leaf == [f |-> "var", kids |-> <<>>]
+           leaf == [f |-> "var", kids |-> <<>>, pat |-> "pvar"]
        IN  sub \cup UNION {
              LET n == Cardinality(Slots(f)) IN
              \* a spine: exactly one slot carries a deeper tree, the others the leaf `a`
-             {[f |-> f, kids |-> [i \in 1..n |-> IF i = j THEN s ELSE leaf]] : j \in 1..n, s \in sub}
+             {[f |-> f, kids |-> [i \in 1..n |-> IF i = j THEN s ELSE leaf], pat |-> "pvar"] : j \in 1..n, s \in sub}
              : f \in Inner}
 
 \* sp: the opening parenthesis that a self-parenthesising former (an annotation) prints as part of itself
@@ -131,12 +156,17 @@ Render(t, r) ==
       RECURSIVE Go(_, _)
       Go(i, k) == IF i > Len(tpl) THEN <<>>
                   ELSE IF tpl[i].t = "tok" THEN <<[s |-> tpl[i].s, k |-> tpl[i].k, p |-> "no", sp |-> FALSE]>> \o Go(i + 1, k)
+                  ELSE IF tpl[i].t = "pat" THEN [j \in DOMAIN PatTpl[t.pat] |-> [s |-> PatTpl[t.pat][j].s, k |-> PatTpl[t.pat][j].k, p |-> "no", sp |-> (t.pat \in SelfParenPats /\ j = 1)]] \o Go(i + 1, k)
                   ELSE Render(t.kids[k], tpl[i].r) \o Go(i + 1, k + 1)
       need == Need(r, t.f)
   IN  <<po(need, t.f \in SelfParen)>> \o Go(1, 1) \o <<pc(need)>>
 
 RECURSIVE Rw(_)
-Rw(t) == t.f \in Rewritten \/ \E i \in DOMAIN t.kids : Rw(t.kids[i])
+Rw(t) == t.f \in Rewritten \/ t.pat = "ppar" \/ \E i \in DOMAIN t.kids : Rw(t.kids[i])
+
+RECURSIVE DepthOf(_)
+DepthOf(t) == IF t.kids = <<>> THEN 0
+              ELSE 1 + (LET ds == {DepthOf(t.kids[i]) : i \in DOMAIN t.kids} IN CHOOSE m \in ds : \A x \in ds : x <= m)
 
 Full(t) == Render(t, AnyT)                      \* the root of a source unit is a TermId
 Min(t) == SelectSeq(Full(t), LAMBDA x : x.p # "red")
@@ -165,33 +195,46 @@ PredGap(toks, g) == PredGapH(toks, g, TRUE)
 Pred(toks) == [g \in 0..Len(toks) |-> PredGap(toks, g)]
 Crossed(toks, g) == {toks[i].k : i \in (g + 1)..PredGap(toks, g)}
 
+\* (P is the whole prediction computed once per token sequence: TLC builds the function eagerly)
+CrossedP(toks, P, g) == {toks[i].k : i \in (g + 1)..P[g]}
 \* what the property asks: a comment stays on the same side of every syntactic element
-SameSideStrict(toks) == \A g \in 0..Len(toks) : Crossed(toks, g) \subseteq {"sep", "arm"}
+SameSideStrict(toks) == LET P == Pred(toks) IN \A g \in 0..Len(toks) : CrossedP(toks, P, g) \subseteq {"sep", "arm"}
 \* what this design guarantees
-NeverBackwards(toks) == \A g \in 0..Len(toks) : PredGap(toks, g) >= g \/ (g >= 1 /\ toks[g].sp /\ PredGap(toks, g) = g - 1)
-NeverCrossesEntity(toks) == \A g \in 0..Len(toks) : PredGap(toks, g) >= g => "ent" \notin Crossed(toks, g)
-OrderKept(toks) == \A g, h \in 0..Len(toks) : g <= h => PredGap(toks, g) <= PredGap(toks, h)
-Stable(toks) == \A g \in 0..Len(toks) : PredGap(toks, PredGap(toks, g)) = PredGap(toks, g)   \* re-formatting does not move it again
+NeverBackwards(toks) == LET P == Pred(toks) IN \A g \in 0..Len(toks) : P[g] >= g \/ (g >= 1 /\ toks[g].sp /\ P[g] = g - 1)
+NeverCrossesEntity(toks) == LET P == Pred(toks) IN \A g \in 0..Len(toks) : P[g] >= g => "ent" \notin CrossedP(toks, P, g)
+OrderKept(toks) == LET P == Pred(toks) IN \A g \in 0..(Len(toks) - 1) : P[g] <= P[g + 1] \/ (toks[g + 1].sp /\ P[g + 1] = g)
+Stable(toks) == LET P == Pred(toks) IN \A g \in 0..Len(toks) : P[P[g]] = P[g]   \* re-formatting does not move it again
 
 (* ------------------------------------------------------------------------------------------------ *)
-VARIABLE tree
-Init == tree \in Trees(Depth)
-Next == UNCHANGED tree
-Spec == Init /\ [][Next]_tree
+VARIABLES tree, stage
+\* two steps so that TLC's workers share the printing: the root former is chosen first (initial states are
+\* processed by one thread), the rest of the tree in a second, parallel step
+\* the trees of depth <= Depth whose root former is f (without building the other roots' trees)
+WithRoot(f) ==
+  LET leaf == [f |-> "var", kids |-> <<>>, pat |-> "pvar"]
+      n == Cardinality(Slots(f))
+      base == IF n = 0 THEN {[f |-> f, kids |-> <<>>, pat |-> "pvar"]}
+              ELSE IF Depth = 0 THEN {}
+              ELSE {[f |-> f, kids |-> [i \in 1..n |-> IF i = j THEN s ELSE leaf], pat |-> "pvar"] : j \in 1..n, s \in Trees(Depth - 1)}
+  IN UNION {{[t EXCEPT !.pat = p] : p \in IF HasPat(f) /\ RootPats = "all" THEN PatNames ELSE {"pvar"}} : t \in base}
+Init == stage = "root" /\ tree \in {[f |-> f, kids |-> <<>>, pat |-> "pvar"] : f \in FN}
+Next == stage = "root" /\ stage' = "done" /\ tree' \in WithRoot(tree.f)
+Spec == Init /\ [][Next]_<<tree, stage>>
 
 Strs(toks) == [i \in DOMAIN toks |-> toks[i].s]
 Kinds(toks) == [i \in DOMAIN toks |-> toks[i].k]
 Pars(toks) == [i \in DOMAIN toks |-> toks[i].p]
 PredSeq(toks, hop) == [i \in 1..(Len(toks) + 1) |-> PredGapH(toks, i - 1, hop)]
 
-Emit == Mode = "emit" =>
-  PrintT(<<"REPLAY", ToJson([f |-> tree.f,
+Emit == (Mode = "emit" /\ stage = "done") =>
+  PrintT(<<"REPLAY", ToJson([f |-> tree.f, pat |-> tree.pat, d |-> DepthOf(tree),
                              toks |-> Strs(Full(tree)), kinds |-> Kinds(Full(tree)), pars |-> Pars(Full(tree)),
                              bareOk |-> NeedsNone(tree), rw |-> Rw(tree),
                              predMin |-> PredSeq(Min(tree), FALSE), predMinHop |-> PredSeq(Min(tree), TRUE)])>>)
 
-AnchoringLaws == /\ NeverBackwards(Full(tree)) /\ NeverCrossesEntity(Full(tree)) /\ OrderKept(Full(tree))
+AnchoringLaws == stage = "done" =>
+                 /\ NeverBackwards(Full(tree)) /\ NeverCrossesEntity(Full(tree)) /\ OrderKept(Full(tree))
                  /\ NeverBackwards(Min(tree)) /\ NeverCrossesEntity(Min(tree)) /\ OrderKept(Min(tree))
-SameSide == SameSideStrict(Min(tree))          \* expected to be violated: F6
-Settles == Stable(Min(tree))                   \* expected to be violated from Depth 2 on (annotation inside annotation): F20
+SameSide == stage = "done" => SameSideStrict(Min(tree))          \* expected to be violated: F6
+Settles == stage = "done" => Stable(Min(tree))                   \* expected to be violated from Depth 2 on (annotation inside annotation): F20
 ================================================================================
